@@ -633,6 +633,7 @@ class CrashWorld(World):
         pt["n_before"] = n_before
         pt["bucket_level"] = bucket_level
         pt["event_write"] = any(w.is_event for w in variants[ORDERS[0]])
+        pt["write_call"] = self.cur_op in ("insert1", "insertN", "replace", "replace_last_blind", "delete") and not expect_reject
         out["point"] = pt
         return out
 
